@@ -8,8 +8,8 @@ import (
 
 const hooksEnabled = true
 
-func setBudget(n int64)  { memefish.VerifSetBudget(n) }
-func steps() int64       { return memefish.VerifSteps() }
+func setBudget(n int64) { memefish.VerifSetBudget(n) }
+func steps() int64      { return memefish.VerifSteps() }
 func isBudgetPanic(r any) bool {
 	_, ok := r.(memefish.VerifStepBudgetExceeded)
 	return ok
